@@ -128,6 +128,15 @@ def mp_sqrt (R : Rounding) (prec : Nat) (a : Val) : Val :=
   | .bad => err
   | _ => if num a < 0 then err else mpf (R.mpSqrt prec (num a))
 
+/-- `math.sqrt`: the argument is converted to a binary64 float first (`int` → one correct rounding; an `mpf` is not
+accepted here), a negative argument raises `ValueError`; the result is the correctly rounded root (53 bits) -/
+def math_sqrt (R : Rounding) (a : Val) : Val :=
+  match a with
+  | int z => if z < 0 then err else flt (R.mpSqrt 53 (R.f64 z))
+  | bool_ b => flt (if b then 1 else 0)
+  | flt q => if q < 0 then err else flt (R.mpSqrt 53 q)
+  | _ => err
+
 def min_ (l : List Val) : Val :=
   match l with
   | [] => err
